@@ -596,6 +596,61 @@ def generate(kin_src, cons_src):
         raise TranslateError("kinematic_singularity: falls off the end")
     term = tr(P(tokenize(flat)).stmts_until_eof(), {"joints_J5": "j.j5", "sign_J5": "p.signs.j5", "offset_J5": "p.offsets.j5"}, cx, _none, 1)
     L.append("/-- `kinematic_singularity` (`Some(Singularity::A)` = true) -/\ndef kinematicSingularitySrc (p : Params R) (j : J6 R) : Bool :=\n  " + term + "\n")
+    # the wrist-singular recovery inside inverse_continuing: from the raw singular answer `now` and `previous` to the
+    # candidate with J4 / J6 redistributed (the block between `let s; let s_n;` and the final pose check)
+    body, _ = fn_body(kin_src, "inverse_continuing")
+    flat = " ".join(re.sub(r"//[^\n]*", "", body).split())
+    m = re.search(r"let s; let s_n; if let Some\(Singularity::A\) = singularity \{ let mut now = ik\[s_idx\]; (.*?) let check_pose = self\.forward\(&now\);", flat)
+    if not m:
+        raise TranslateError("inverse_continuing: the singular recovery block `let s; let s_n; if let Some(Singularity::A) = singularity { let mut now = ik[s_idx]; .. let check_pose = self.forward(&now);` was not found")
+    blk = "let mut s = 0.0; let mut s_n = 0.0; " + m.group(1)
+    for a, b in [("let p = &self.parameters;", ""), ("p.sign_corrections[J4] as f64", "sign_J4"), ("p.sign_corrections[J5] as f64", "sign_J5"),
+                 ("p.sign_corrections[J6] as f64", "sign_J6"), ("p.offsets[J5]", "offset_J5"),
+                 ("normalize_near(&mut now[J5], previous[J5]);", "normalize_near(now_J5, previous_J5);")]:
+        if a not in blk:
+            raise TranslateError("inverse_continuing (singular recovery) no longer contains: " + a)
+        blk = blk.replace(a, b)
+    for j in ("J4", "J5", "J6"):
+        blk = blk.replace(f"now[{j}]", f"now_{j}").replace(f"previous[{j}]", f"previous_{j}")
+    if "[" in blk:
+        raise TranslateError("inverse_continuing (singular recovery): unexpected indexing left in `" + blk + "`")
+    cx = Ctx("singularCandidateSrc", "normFuel", {"normalize_near": "normalizeNearSrc"})
+    cx.boolfns = {"are_angles_close": "areAnglesCloseSrc"}
+    env = {"sign_J4": "p.signs.j4", "sign_J5": "p.signs.j5", "sign_J6": "p.signs.j6", "offset_J5": "p.offsets.j5",
+           "previous_J4": "previous.j4", "previous_J5": "previous.j5", "previous_J6": "previous.j6",
+           "now_J4": "now.j4", "now_J5": "now.j5", "now_J6": "now.j6"}
+    term = tr(P(tokenize(blk)).stmts_until_eof(), env, cx, lambda e: tuple_of([e["now_J4"], e["now_J5"], e["now_J6"]]), 1)
+    L.append("".join(a + "\n" for a in cx.aux) +
+             "/-- the wrist-singular recovery of `inverse_continuing`: `(now[J4], now[J5], now[J6])` after the block -/\n"
+             "def singularCandidateSrc (p : Params R) (previous now : J6 R) : R × R × R :=\n  " + term + "\n")
+    # sort_by_closeness: which comparator is used when, and the cost the weighted comparator computes for its two arguments
+    body, _ = fn_body(kin_src, "sort_by_closeness")
+    flat = " ".join(re.sub(r"//[^\n]*", "", body).split())
+    CMP = "distance_a.partial_cmp(&distance_b).unwrap_or(std::cmp::Ordering::Equal)"
+    m = re.match(r"let sorting_weight = self\.constraints\.as_ref\(\) \.map_or\(BY_PREV, \|c\| c\.sorting_weight\); if sorting_weight == BY_PREV \{ "
+                 r"solutions\.sort_by\(\|a, b\| \{ (.*?) \}\); \} else \{ let constraints = self\.constraints\.as_ref\(\)\.unwrap\(\); "
+                 r"solutions\.sort_by\(\|a, b\| \{ (.*?) \}\); \}$", flat)
+    if not m:
+        raise TranslateError("sort_by_closeness no longer has the shape `weight = map_or(BY_PREV, ..); if weight == BY_PREV { sort_by(plain) } else { sort_by(weighted) }`")
+    plain, weighted = m.groups()
+    if plain != "let distance_a = calculate_distance(a, previous); let distance_b = calculate_distance(b, previous); " + CMP:
+        raise TranslateError("sort_by_closeness: the plain comparator is no longer distance-to-previous: " + plain)
+    if not weighted.endswith(CMP):
+        raise TranslateError("sort_by_closeness: the weighted comparator no longer ends with " + CMP)
+    weighted = weighted[:-len(CMP)]
+    for a, b in [("let prev_a; let prev_b;", "let mut prev_a = 0.0; let mut prev_b = 0.0;"), ("calculate_distance(a, previous)", "d_prev_a"),
+                 ("calculate_distance(b, previous)", "d_prev_b"), ("calculate_distance(a, &constraints.centers)", "d_cons_a"),
+                 ("calculate_distance(b, &constraints.centers)", "d_cons_b")]:
+        if a not in weighted:
+            raise TranslateError("sort_by_closeness (weighted comparator) no longer contains: " + a)
+        weighted = weighted.replace(a, b)
+    if "calculate_distance" in weighted or "constraints" in weighted:
+        raise TranslateError("sort_by_closeness (weighted comparator): unexpected distance left in `" + weighted + "`")
+    CONSTS["BY_CONSTRAINS"] = "byConstraints"; CONSTS["BY_PREV"] = "byPrev"
+    L.append(translate_body(weighted, "sort_by_closeness", "sortCostPairSrc", ["sorting_weight", "d_prev_a", "d_prev_b", "d_cons_a", "d_cons_b"], "R × R",
+                            result_var=["distance_a", "distance_b"],
+                            doc="the weighted comparator of `sort_by_closeness` (used when the weight is not BY_PREV): `(distance_a, distance_b)` from the "
+                                "four distances to previous / to the constraint centres"))
     # constraints.rs
     L.append(translate_fn(cons_src, "inside_bounds", "insideBoundsSrc", "Bool"))
     body, _ = fn_body(cons_src, "compute_centers")
